@@ -87,3 +87,19 @@ var _ *grpc.ClientConn
 //@ loop 1
 //@ invariant [copying] nodes != nil && fresh(nodes) && forall j uint64 :: has(nodes, j) == $visited[j] && (has(nodes, j) ==> nodes[j] == this.addresses[j])
 //@ invariant [visited-sub] forall j uint64 :: $visited[j] ==> has(this.addresses, j)
+
+// ---------------------------------------------------------------------------------------------
+// C20: a node's connection book starts empty, under the node's own id and address
+//@ func google.golang.org/grpc/credentials.NewClientTLSFromFile
+//@ props C20 C14 C05
+//@ assume
+//@ modifies nothing
+//@ func (*github.com/sirupsen/logrus.Entry).WithFields
+//@ props C20 C14 C05
+//@ assume
+//@ modifies nothing
+//@ func cluster.NewConn
+//@ props C20 C14 C05
+//@ safety UNCLAIMED
+//@ ensures [C20 empty-book-of-its-own] isnil(ret1) ==> ret0 != nil && fresh(ret0) && ret0.id == id && ret0.address == address && ret0.addresses != nil && fresh(ret0.addresses) && len(ret0.addresses) == 0 && ret0.conns != nil && fresh(ret0.conns) && len(ret0.conns) == 0
+//@ modifies nothing
